@@ -97,6 +97,13 @@ class C04(Check):
                 rc = random_run(rng, tr=2, variants=[(directed, assort, init)], r=r, maxit=1, nconv=1, ltwt=("u", "u"),
                                 script=[-10.0 + p for p in pat])
                 runs["ord%d_%s" % (r, "".join(map(str, pat)))] = rc
+        # evaluations that are not finite (overflowed or undefined likelihoods) are reported like any other
+        inf, nan = float("inf"), float("nan")
+        for n, sc in enumerate([[inf], [-inf], [nan], [-3.0, inf, -2.0], [nan, -4.0], [-4.0, nan], [-inf, -5.0], [inf, inf],
+                                [-5.0, -inf, nan, -1.0], [nan, nan, -7.0]]):
+            directed, assort, init = rng.choice(ALL_VARIANTS)
+            runs["nonfinite%d" % n] = random_run(rng, tr=2, variants=[(directed, assort, init)], r=len(sc), maxit=1, nconv=1,
+                                                 ltwt=("u", "u"), script=sc)
         self.cov["exhaustive_orderings_up_to_r"] = maxr
         # (b) real runs
         for k in range(60 if self.tier == "quick" else 600):
@@ -165,7 +172,7 @@ class C04(Check):
         bad = []
         if len(L2) != rc.r or len(o["iters"]) != rc.r or len(o["reasons"]) != rc.r:
             bad.append("report has %d/%d/%d entries for r=%d" % (len(L2), len(o["iters"]), len(o["reasons"]), rc.r))
-        if rc.script and L2 != list(rc.script):
+        if rc.script and o["L2s"] != [hexf(x) for x in rc.script]:
             bad.append("reported likelihoods %s != evaluated ones %s" % (L2, list(rc.script)))
         if L2 and all(finite(x) for x in L2):
             best = max(L2)
@@ -350,11 +357,12 @@ class C07(Check):
             for pi in order:
                 d = dict(rc.__dict__)
                 d["prior"] = priors[pi]
+                d["vshape"] = pi   # the caller's in-membership container also arrives in 5 different shapes
                 lines.append(RunCase(**d).line("h%d.p%d" % (k, pi)))
                 if rng.random() < 0.5:  # an unrelated call in between
                     lines.append(random_run(rng, variants=ALL_VARIANTS).line("h%d.x%d" % (k, pi)))
             lines.append(rc.line("h%d.again" % k))
-        io, mo = self.correspond("run-history", lines, keys=lambda a, b: [x for x in NUMERIC_KEYS + ["labels", "seed", "err"] if x in a or x in b])
+        io, mo = self.correspond("run-history", lines, keys=lambda a, b: [x for x in NUMERIC_KEYS + ["labels", "seed", "err", "udims", "vdims"] if x in a or x in b])
         # fresh process per call
         fresh = {}
         for k in list(targets)[: (8 if self.tier == "quick" else 40)]:
@@ -369,7 +377,7 @@ class C07(Check):
             if len(net.U) < net.N:
                 self.nontrivial((rc.variant(), str(rc.recs), rc.seed))
             self.monitor("histories")
-            keys = ["u", "aff", "iters", "reasons", "L2s", "seed", "labels"] + (["v"] if rc.directed else [])
+            keys = ["u", "udims", "aff", "iters", "reasons", "L2s", "seed", "labels"] + (["v", "vdims"] if rc.directed else [])
             if base["seed"] != [str(rc.seed)]:
                 self.violate("seed-echo", "report seed %s != supplied %d" % (base["seed"], rc.seed), dict(rc.describe(), case=rc.line("replay")))
             others = [(".p%d" % pi, io.get("%s.p%d" % (k, pi)), priors[pi]) for pi in range(1, len(priors))]
@@ -383,21 +391,30 @@ class C07(Check):
                 if diff:
                     self.violate("impure" if suffix.startswith(".p") else "nondeterministic",
                                  "same call gives different %s %s" % (",".join(diff),
-                                 "with output containers pre-filled with %r instead of 0" % prior if suffix.startswith(".p")
+                                 "with output containers pre-filled with %r (and the in-membership container pre-shaped as variant %s) instead of 0 / N x K"
+                                 % (prior, suffix[2:]) if suffix.startswith(".p")
                                  else "when repeated (%s)" % suffix[1:]),
                                  dict(rc.describe(), prior_fill_a=0.0, prior_fill_b=prior, differing_fields=diff,
                                       result_a={x: base.get(x) for x in diff}, result_b={x: o.get(x) for x in diff},
-                                      case_a=rc.line("replay_a"), case_b=RunCase(**dict(rc.__dict__, prior=prior)).line("replay_b")))
+                                      case_a=rc.line("replay_a"),
+                                      case_b=RunCase(**dict(rc.__dict__, prior=prior, vshape=int(suffix[2:]) if suffix.startswith(".p") else 0)).line("replay_b")))
                     break
             if not rc.directed:
                 # undirected: the in-membership argument is returned as it was
                 for pi, p in enumerate(priors):
                     o = io.get("%s.p%d" % (k, pi))
-                    if o and "v" in o and (len(o["v"]) != len(o.get("labels", [])) * rc.K or any(t != hexf(p) for t in o["v"])):
-                        self.violate("v-touched", "undirected run modified the in-membership argument", dict(rc.describe(), prior=p))
+                    if not o or "v" not in o:
+                        continue
+                    N = len(o.get("labels", []))
+                    shape = {0: (N, rc.K), 1: (rc.K, N), 2: (N * rc.K, 1), 3: (0, 0), 4: (N + 1, rc.K)}[pi]
+                    if (len(o["v"]) != shape[0] * shape[1] or any(t != hexf(p) for t in o["v"])
+                            or o.get("vdims") != [str(shape[0]), str(shape[1])]):
+                        self.violate("v-touched", "undirected run modified the in-membership argument (contents or shape)",
+                                     dict(rc.describe(), prior=p, prior_v_shape=list(shape), returned_dims=o.get("vdims"),
+                                          case=RunCase(**dict(rc.__dict__, prior=p, vshape=pi)).line("replay")))
                         break
         self.sample({"history": [l.split(" ")[0] for l in lines[:12]], "priors": [str(p) for p in priors]})
-        self.cov["rule"] = ("histories in one process: the same call under 5 different prior contents of the output containers (0, 5, -5, NaN, 1e300), "
+        self.cov["rule"] = ("histories in one process: the same call under 5 different prior contents of the output containers (0, 5, -5, NaN, 1e300) and 5 prior shapes of the unvalidated in-membership container (N x K, K x N, NK x 1, empty, (N+1) x K), "
                             "in shuffled order, interleaved with unrelated calls of other variants, then repeated, then in a fresh process; "
                             "implementation-vs-implementation bit identity; non-trivial = some vertex has no out-edge and r >= 2; "
                             "distinct by (variant, records, seed)")
@@ -446,7 +463,8 @@ class C08(Check):
                 labels = rng.sample(["a", "b", "zz", "A", "node7", "x_y", "10", "9", "é"], N)
             elif rng.random() < 0.3:
                 labels = rng.sample([0, 7, 2 ** 40, 2 ** 63, 12345678901, 3, 999], N)
-            recs, L = gen.records(rng, N=N, wt=wt, labels=labels, maxw=4, ensure_two=False)
+            recs, L = gen.records(rng, N=N, wt=wt, labels=labels, maxw=4, ensure_two=False,
+                                  heavy=(True if rng.random() < 0.15 else None))
             cid = "r%d" % n
             cases.append(gen.case_net(cid, directed, lt, recs, L, wt))
             meta[cid] = (directed, lt, wt, recs, L)
@@ -615,7 +633,8 @@ class C11(Check):
         sym = {}
         for n in range(80 if self.tier == "quick" else 800):
             assort, init = rng.random() < 0.5, rng.choice("rrf")
-            rc = random_run(rng, variants=[(False, assort, init)], prior=rng.choice([0.0, 7.5, -3.0]), maxit=rng.choice([1, 4, 11, 25]))
+            rc = random_run(rng, variants=[(False, assort, init)], prior=rng.choice([0.0, 7.5, -3.0]), maxit=rng.choice([1, 4, 11, 25]),
+                            heavy=(True if rng.random() < 0.25 else None))
             # reverse a subset of records, keeping the order of first appearance
             seen = set()
             rev = []
@@ -1167,6 +1186,37 @@ class C18(Check):
             if bad:
                 self.violate("writer-layout", "K=%d L=%d assortative=%s: %s" % (K, L, assort, "; ".join(bad[:3])),
                              {"K": K, "L": L, "assortative": assort, "case": [c for c in wcases if c.startswith(cid + " ")][0]})
+        # the views in use: whole calls (several realizations, every sweep observed) in the variants that read the
+        # affinity through the transposed view (directed + general); each observed in-membership update must be the
+        # update that reads w(q,k,a) at flat q + k*K + a*K*K of the *current* affinity
+        from .props_a import random_run, trace_states, flat_state, run_transition_check
+        rng = self.rng
+        nuse = 10 if self.tier == "quick" else 80
+        runs = {"tv%d" % k: random_run(rng, tr=2, variants=[(True, False, "r"), (True, False, "r"), (True, False, "f")],
+                                       r=rng.choice([2, 3, 4]), maxit=rng.choice([2, 3, 5, 11]), K=rng.choice([2, 3, 3, 4]))
+                for k in range(nuse)}
+        iou, mou = self.correspond("run@transposed-view", [rc.line(c) for c, rc in runs.items()],
+                                   keys=lambda a, b: [x for x in a if x.endswith(".v") or x == "v"])
+        for c, rc in runs.items():
+            o = iou.get(c)
+            if not o or o.get("err") != ["0"]:
+                continue
+            net = rc.net()
+            for ri, seq in trace_states(rc, o, net).items():
+                ok = True
+                for t in range(len(seq) - 1):
+                    u, v, w = flat_state(seq[t][1], net, rc.K, rc.L, rc.assort, rc.directed)
+                    nu, nv, nw = flat_state(seq[t + 1][1], net, rc.K, rc.L, rc.assort, rc.directed)
+                    self.monitor("transposed-view transitions")
+                    self.nontrivial(("view-in-use", str(rc.recs), rc.seed, ri, t))
+                    ok = run_transition_check(self, "transposed-view-in-use", rc, net, "realization %d sweep %d" % (ri, t + 1),
+                                              u, v, w, nu, nv, nw,
+                                              what="an update made through the tensor views inside a call is not the update of the "
+                                                   "documented layout (transposed view = (j,i,a) of the current affinity)")
+                    if not ok:
+                        break
+                if not ok:
+                    break
         self.cov["exhaustive"] = True
         self.sample({"R": 2, "C": 3, "T": 2, "positions (i,j,a lexicographic)": io.get("i2_3_2", {}).get("pos")})
         self.cov["rule"] = ("exhaustive: all dimensions R,C,T <= 6 and all index triples through the real accessors (tensor, transposed view, matrix, diagonal tensor) "
